@@ -27,7 +27,7 @@ ASSUMPTIONS = [
     "wrapper rules: the first command of a non-empty prefix enters configuration mode; 'commit*' only with do_commit; save/write/copy only with do_finalize",
     "R7 (vf/ref/deploy.py) for rule chains; sibling deploy rules have disjoint languages; no %ifcontext in generated rulebooks",
 ]
-FLOORS = {"quick": {"streams_compared": 3000, "commands_compared": 20000, "exits_seen": 3000, "rule_params_checked": 5000, "nondefault_params": 500, "production_jobs": 200, "cases_with_two_apply_logics": 100, "xpl_patches": 500, "xpl_endif_lines_shown": 500, "production_real_jobs": 12},
+FLOORS = {"quick": {"streams_compared": 3000, "commands_compared": 20000, "exits_seen": 3000, "rule_params_checked": 5000, "nondefault_params": 500, "production_jobs": 200, "cases_with_two_apply_logics": 100, "xpl_patches": 500, "xpl_endif_lines_shown": 500, "production_real_jobs": 12, "regexp_dialogs_checked": 200, "context_rulebooks": 400, "ifcontext_rules_matched": 300},
           "thorough": {"streams_compared": 90000, "commands_compared": 600000, "exits_seen": 90000, "rule_params_checked": 150000, "nondefault_params": 15000, "production_jobs": 6000, "xpl_patches": 12000, "xpl_endif_lines_shown": 12000, "production_real_jobs": 12}}
 MODELS = {
     "huawei": ["Huawei", "Huawei CE6870", "Huawei NE40E-X8", "Huawei Quidway S5300"],
@@ -98,7 +98,7 @@ def has_dup(pt, exits):
     return False
 
 
-def gen_deploy_rules(rng, rules, prefix, flat_pool, depth=0):
+def gen_deploy_rules(rng, rules, prefix, flat_pool, depth=0, ctx=False):
     """deploy rules [(pattern, attrs, children)] over the patching vocabulary; some child patterns are hoisted to the top level (flat style)"""
     out = []
     for r in rules:
@@ -106,13 +106,17 @@ def gen_deploy_rules(rng, rules, prefix, flat_pool, depth=0):
             continue
         for pat in ([r.pat] + ([prefix + " " + r.pat] if rng.random() < 0.6 else [])):
             attrs = {"apply": (rng.random() < 0.25), "timeout": float(rng.randint(31, 99)),
-                     "dialogs": [("Q%d %s?" % (rng.randint(1, 99), w), "Y") for w in rng.sample(["sure", "really", "continue"], rng.randint(0, 2))]}
+                     # plain-text prompts and /regexp/ prompts (the latter are matched as regular expressions by the driver)
+                     "dialogs": [(("/Q%d %s.*/" if rng.random() < 0.4 else "Q%d %s?") % (rng.randint(1, 99), w), "Y")
+                                 for w in rng.sample(["sure", "really", "continue"], rng.randint(0, 2))]}
+            if ctx and rng.random() < 0.5:
+                attrs["ifcontext"] = rng.sample(["block:cA", "block:cB", "block:cC"], rng.randint(1, 2))
             children = []
             if r.children and not pat.startswith(prefix + " "):
                 if rng.random() < 0.5:
-                    children = gen_deploy_rules(rng, r.children, prefix, flat_pool, depth + 1)
+                    children = gen_deploy_rules(rng, r.children, prefix, flat_pool, depth + 1, ctx)
                 else:
-                    flat_pool.extend(gen_deploy_rules(rng, r.children, prefix, flat_pool, depth + 1))
+                    flat_pool.extend(gen_deploy_rules(rng, r.children, prefix, flat_pool, depth + 1, ctx))
             out.append((pat, attrs, children))
     return out
 
@@ -120,7 +124,8 @@ def gen_deploy_rules(rng, rules, prefix, flat_pool, depth=0):
 def render_deploy(rules, ind=0):
     out = []
     for pat, attrs, ch in rules:
-        out.append(" " * ind + pat + "  %%timeout=%d" % attrs["timeout"] + ("  %apply_logic=aruba.ap_env.apply" if attrs.get("apply") else ""))
+        out.append(" " * ind + pat + "  %%timeout=%d" % attrs["timeout"] + ("  %apply_logic=aruba.ap_env.apply" if attrs.get("apply") else "")
+                   + ("  %%ifcontext=%s" % ",".join(attrs["ifcontext"]) if attrs.get("ifcontext") else ""))
         for q, a in attrs["dialogs"]:
             out.append(" " * (ind + 4) + "dialog: %s ::: %s" % (q, a))
         out.extend(render_deploy(ch, ind + 4))
@@ -227,10 +232,13 @@ def check_stream(pt, model, vname, flags, acc, w, deploy_rules=None, deploy_comp
     # per command parameters
     if deploy_rules is not None:
         for p, c in zip(paths, cmds_body):
-            exp = RDP.find(deploy_rules, p)
+            exp = RDP.find(deploy_rules, p, dict(paths[p] or {}))
+            if exp and exp[1].get("ifcontext"):
+                acc.count("ifcontext_rules_matched")
             et = exp[1]["timeout"] if exp else 30
-            eq = [(q, a) for q, a in exp[1]["dialogs"]] if exp else []
-            gq = [(q.question, q.answer) for q in (c.questions or [])]
+            eq = [((q[1:-1], a, True) if (q.startswith("/") and q.endswith("/")) else (q, a, False)) for q, a in exp[1]["dialogs"]] if exp else []
+            gq = [(q.question, q.answer, bool(q.is_regexp)) for q in (c.questions or [])]
+            acc.count("regexp_dialogs_checked", sum(1 for x in eq if x[2]))
             acc.count("rule_params_checked")
             if exp:
                 acc.count("nondefault_params")
@@ -241,19 +249,31 @@ def check_stream(pt, model, vname, flags, acc, w, deploy_rules=None, deploy_comp
     return True
 
 
-def check_case(seed, acc):
+def check_case(seed, acc, ctx=False):
     from annet.api import _diff_and_patch
     from annet.rulebook.deploying import compile_deploying_text
     rng = random.Random(seed)
     vname = rng.choice(list(MODELS))
     model = rng.choice(MODELS[vname])
     v, prefix, exitw, hw, fmt = c01.vendor_env(vname)
-    w = {"seed": seed, "vendor": vname, "generated": True}
+    w = {"seed": seed, "ctx": ctx, "vendor": vname, "generated": True}
     kind = rng.random()
+    if ctx:
+        kind = 0.0
     deploy_rules = compiled = None
     if kind < 0.7:
         rules = G.gen_rulebook(rng, depth=3, prefix=prefix, allow=("global", "catchall", "ordered"))
         text = RB.render(rules)
+        if ctx:
+            # %context sections of the patching rulebook: every command carries the context of the rule that produced it, and
+            # deploy rules may be restricted to several contexts at once (%ifcontext=block:a,block:b)
+            lines, crng = [], random.Random(seed ^ 0xC7)
+            for ln in text.split("\n"):
+                if ln and not ln.startswith(" ") and crng.random() < 0.6:
+                    lines.append("%%context=block:%s" % crng.choice(["cA", "cB", "cC", "cD"]))
+                lines.append(ln)
+            text = "\n".join(lines)
+            acc.count("context_rulebooks")
         old = G.gen_tree(rng, rules)
         new = G.mutate_tree(rng, old, rules, rate=0.6) if rng.random() < 0.7 else G.gen_tree(rng, rules)
         try:
@@ -263,7 +283,7 @@ def check_case(seed, acc):
             acc.violation("C09/exception/%s" % type(e).__name__, "patch computation raised", dict(w, error=repr(e)[:300]))
             return None
         flat_pool = []
-        dr = gen_deploy_rules(rng, rules, prefix, flat_pool)
+        dr = gen_deploy_rules(rng, rules, prefix, flat_pool, 0, ctx)
         deploy_rules = dedupe_first_words(dr + flat_pool)
         dtext = "\n".join(render_deploy(deploy_rules))
         w["deploy_rulebook"] = dtext
@@ -493,7 +513,7 @@ def run_shard(spec, acc):
         elif w.get("xpl"):
             check_xpl(w["seed"], acc)
         else:
-            check_case(w["seed"], acc)
+            check_case(w["seed"], acc, ctx=bool(w.get("ctx")))
         return
     if spec["mode"] == "corpus":
         return run_corpus(spec, acc)
@@ -506,3 +526,5 @@ def run_shard(spec, acc):
             acc.sample({k2: w.get(k2) for k2 in ("vendor", "patch", "deploy_rulebook")})
         if j % 4 == 3:
             check_xpl(rng.randrange(1 << 48), acc)
+        if j % 4 == 1:
+            check_case(rng.randrange(1 << 48), acc, ctx=True)
